@@ -231,7 +231,7 @@ func main() {
 		kind string
 		ps   []prestate
 	}
-	for _, kind := range kmfx.Kinds {
+	for _, kind := range append(append([]string(nil), kmfx.Kinds...), kmfx.GcpGcs) { // + the Cloud KMS key manager over the model service
 		w := kmfx.NewWorld(kind)
 		if err := w.Bootstrap(kmfx.DefaultBootstrap(t0), kmfx.Flags{}, nil); err != nil {
 			mc.Fatal("bootstrap %s: %v", kind, err)
@@ -259,6 +259,10 @@ func main() {
 			body := func(c *mc.Chooser) string {
 				w := ps.w.Clone()
 				defer w.Drop()
+				// One process: the key-manager and authority objects that saw the rotation fail are the
+				// ones that endorse and retry afterwards - unless the process crashed, in which case a
+				// new process (new objects) takes over.
+				w.OneProcess = true
 				in := &injector{c: c, w: w}
 				if w.Store != nil {
 					w.Store.Pre = func(op, b, o string) error {
@@ -355,7 +359,34 @@ func main() {
 						}
 					}
 				}
-				// Post-fault state after reload.
+				// The surviving process (rotation returned an error, no crash) retries in place with the
+				// objects it has; this runs on a copy of the world made now, so that the reload checks
+				// below still see the state right after the failure.
+				sameProcessRetry := ""
+				if crashed == nil && rotErr != nil {
+					in.off = true
+					if w.Store != nil {
+						w.Store.Pre, w.Store.Post = nil, nil
+					}
+					snap := w.Clone()
+					if _, err := w.Rotate(kmfx.RotateOpts{Now: tRot.Add(36 * time.Hour)}, kmfx.Flags{Overwrite: true}, nil); err != nil {
+						sameProcessRetry = "fails"
+						r.Violation(key("same-process-retry-rotation-fails"), id, fmt.Sprintf("the process that saw the rotation fail [%s] retries with --overwrite and fails: %v", devs, err), detail)
+					} else {
+						w.Restart()
+						if m2 := invariant(w, tNow); m2 != "" {
+							sameProcessRetry = "breaks"
+							r.Violation(key("same-process-retry-rotation-breaks-invariant"), id, fmt.Sprintf("after the process that saw the rotation fail [%s] retried with --overwrite: %s", devs, m2), detail)
+						} else {
+							sameProcessRetry = "ok"
+						}
+					}
+					w.Drop()
+					w = snap
+					defer snap.Drop()
+				}
+				w.Restart()
+				// Post-fault state after reload (new process, new objects).
 				msg := invariant(w, tNow)
 				if msg != "" {
 					r.Violation(key("primary-unusable-after-failure"), id, fmt.Sprintf("after rotation %s with [%s]: %s", outcome, devs, msg), detail)
@@ -374,7 +405,7 @@ func main() {
 					}
 				}
 				r.Validated()
-				sig := fmt.Sprintf("%s|%s|%s|%s|destroyMonitor=%v|inv=%v|retry=%s", kind, ps.name, devs, outcome, in.destroyChecked, msg == "", retry)
+				sig := fmt.Sprintf("%s|%s|%s|%s|destroyMonitor=%v|inv=%v|retry=%s|same-process-retry=%s", kind, ps.name, devs, outcome, in.destroyChecked, msg == "", retry, sameProcessRetry)
 				if r.State(sig) {
 					r.Sample(map[string]any{"kind": kind, "pre": ps.name, "deviations": in.fault, "rotation": outcome, "seam_calls": len(in.log), "retry": retry})
 				}
